@@ -193,9 +193,9 @@ def c07(ctx):
     t = ctx.tables
     exprs = [texts[0] + " AND " + texts[2], texts[0] + " OR (" + texts[1] + " AND " + texts[3] + ")", texts[3],
              "(" + texts[2] + " OR " + texts[0] + ") AND " + texts[1], texts[1] + " OR " + texts[3] + " AND " + texts[0]]
-    uni = universe[:4] if not thorough else universe
-    uni = list(dict.fromkeys(uni))
-    ctx.write_params("MC_AllowedSpell_P", {"Exprs": tla_seq(exprs[: 5 if thorough else 2]), "Universe": tla_seq(uni), "MaxDup": "1",
+    # (measured: 4 entries, one duplicate, two re-spellings = about 100 k states per expression at ~500 states/s)
+    uni = list(dict.fromkeys(universe[:4]))
+    ctx.write_params("MC_AllowedSpell_P", {"Exprs": tla_seq(exprs[: 3 if thorough else 2]), "Universe": tla_seq(uni), "MaxDup": "1",
                                            "MaxResp": "2" if thorough else "1", "MixK": str(ctx.seed % 2)})
     ctx.notes.append("allowedspell: exprs=%s universe=%s" % (exprs, uni))
     r = ctx.run_tlc("allowedspell", "MC_AllowedSpell", "MC_AllowedSpell", timeout=3000)
@@ -219,8 +219,8 @@ def c07(ctx):
         uni2[3] = g
         exprs2[1] = rng.choice(laters) + " AND " + x + " WITH " + e1
         exprs2[2] = rng.choice(laters)
-    ctx.write_params("MC_AllowedSpell_P", {"Exprs": tla_seq(exprs2 if thorough else exprs2[:3]), "Universe": tla_seq(uni2), "MaxDup": "1",
-                                           "MaxResp": "2" if thorough else "1", "MixK": str(ctx.seed % 2)})
+    ctx.write_params("MC_AllowedSpell_P", {"Exprs": tla_seq(exprs2[:3]), "Universe": tla_seq(uni2), "MaxDup": "1",
+                                           "MaxResp": "1", "MixK": str(ctx.seed % 2)})
     ctx.notes.append("allowedspell-sameid: exprs=%s universe=%s" % (exprs2, uni2))
     r = ctx.run_tlc("allowedspell-sameid", "MC_AllowedSpell", "MC_AllowedSpell", timeout=3000)
     if r["violated"]:
